@@ -8,7 +8,7 @@ cell.go sharedStringsLoader, rows.go getFromStringItem / Rows, file.go Close /
 writeToZip) defined over the regenerated facts `Facts.C12`; `facts_ok` pins
 the facts the proofs were written for.
 -/
-import XlModel.Lemmas.Store5
+import XlModel.Lemmas.Store9
 
 namespace XlModel.Props.C12
 open XlModel XlModel.Store
@@ -51,6 +51,36 @@ theorem limit_rejects (l : Limits) (es : List Entry)
     ((∃ s w, readZip l {} 0 0 es = .ok s w) ∨ (∃ s, readZip l {} 0 0 es = .sizeErr s)) := by
   have h := readZip_verdict l es {} 0 0 hio hnn
   simpa using h
+
+/-- the verdict of ReadZipReader (ok / size error / read error / panic) is a function of the
+limits and the zip directory alone — `verdictOf` never looks at the store — for **arbitrary**
+entry lists: entries whose `Open` fails give the read error, a negative declared size reaching
+`readFile` gives the panic of `make([]byte, 0, negative)`, exactly at the first entry where
+something goes wrong -/
+theorem verdict_state_free (l : Limits) (es : List Entry) (st : St) (t : Int) (ws : Nat) :
+    (readZip l st t ws es).verdict = verdictOf l t es := readZip_verdictOf l es st t ws
+
+/-- `limit_rejects` without hypotheses on the entries: the size error is returned **iff** there is
+a first non-empty prefix whose declared total is `>` UnzipSizeLimit and every entry before it
+was processed without a read error or panic (`entryOutcome = ok`) -/
+theorem limit_rejects_full (l : Limits) (es : List Entry) :
+    (∃ s, readZip l {} 0 0 es = .sizeErr s) ↔
+      ∃ k, k < es.length ∧ declSum (es.take (k + 1)) > l.size ∧
+        (∀ j, j < k → ¬ (declSum (es.take (j + 1)) > l.size)) ∧
+        (∀ j, j < k → ∀ e, es[j]? = some e → entryOutcome l e = .ok) := by
+  have hv := readZip_verdictOf l es {} 0 0
+  have hs := verdictOf_sizeErr l es 0
+  simp only [Int.zero_add] at hs
+  rw [← hs, ← hv]
+  cases readZip l {} 0 0 es <;> simp [ZRes.verdict]
+
+/-- an entry that cannot be opened, or declares a negative size and is read into memory, never
+yields a successful open: success means the limit is respected by every prefix and every
+entry's outcome is ok -/
+theorem open_ok_iff (l : Limits) (es : List Entry) :
+    (∃ s w, readZip l {} 0 0 es = .ok s w) ↔ verdictOf l 0 es = .ok := by
+  rw [← readZip_verdictOf l es {} 0 0]
+  cases readZip l {} 0 0 es <;> simp [ZRes.verdict]
 
 /-- the verdict does not depend on UnzipXMLSizeLimit (which parts are spilled) -/
 theorem limit_verdict_independent_of_xml_limit (x1 x2 size : Int) (es : List Entry)
@@ -149,6 +179,85 @@ theorem open_refines_map (l : Limits) (es : List Entry) (st : St) (h : openReade
 theorem open_independent_of_limits (l1 l2 : Limits) (es : List Entry) (s1 s2 : St)
     (h1 : openReader l1 es = .ok s1) (h2 : openReader l2 es = .ok s2) (n : String) : absAt s1 n = absAt s2 n := by
   rw [open_refines_map l1 es s1 h1, open_refines_map l2 es s2 h2]
+
+/-! ## "… and stays the same through subsequent reads, edits and saves" -/
+
+/-- a successful open puts the store in the refinement relation with the plain map of the entries -/
+theorem open_R (l : Limits) (es : List Entry) (st : St) (h : openReader l es = .ok st) :
+    R st { m := Spec.parts es [] } := by
+  have hfl : Fresh st := by
+    unfold openReader at h
+    cases hc : checkOptions l with
+    | none => simp [hc] at h
+    | some l' =>
+      simp only [hc] at h
+      have fr := readZip_fresh l' es {} 0 0 ⟨rfl, rfl, rfl⟩
+      cases hr : readZip l' {} 0 0 es with
+      | ok s w => rw [hr] at h fr; injection h with h; subst h; exact fr
+      | sizeErr s => rw [hr] at h; simp at h
+      | readErr s => rw [hr] at h; simp at h
+      | panic s => rw [hr] at h; cases h
+  refine ⟨open_establishes_inv l es st h, fun n _ => open_refines_map l es st h n, hfl.1, hfl.2.1, Or.inl hfl.2.2, ?_⟩
+  intro hd; rw [hfl.2.1] at hd; cases hd
+
+/-- `store_refines_map`: for every package, every admissible limit pair and **every** history of
+modelled operations (promoting reads, worksheet reads, flushes, streaming reads, shared-string
+reader / index file / loader / first string write, saves — in any number and order) the two-tier
+store stays a refinement of the limit-free plain-map machine: after the history each part reads
+as the plain map says, and every read along the way returned the bytes the plain map returns.
+Hypotheses (`AdmAll`, stated on the plain-map run, hence independent of the limits): part names
+are not the key of the index file; serialisations written by flush/save are non-empty
+(`saveFileList` prepends the XML header); and the serialisation law — re-marshalling an
+*unmodified* shared string table yields the bytes it was decoded from. -/
+theorem store_refines_map (l : Limits) (es : List Entry) (st : St) (h : openReader l es = .ok st)
+    (ops : List Op) (adm : AdmAll { m := Spec.parts es [] } ops) :
+    R (run st ops).1 (Spec.run { m := Spec.parts es [] } ops).1 ∧
+    (∀ n, n ≠ sstKey → absAt (run st ops).1 n = AMap.load (Spec.run { m := Spec.parts es [] } ops).1.m n) ∧
+    outsOk (run st ops).2 (Spec.run { m := Spec.parts es [] } ops).2 := by
+  have rr := run_refines ops (open_R l es st h) adm
+  exact ⟨rr.1, rr.1.abs, rr.2⟩
+
+/-- the blobs returned by the reads of a history -/
+def blobsOf : List Out → List (Option Blob)
+  | [] => []
+  | .blob b :: r => some b :: blobsOf r
+  | _ :: r => none :: blobsOf r
+
+theorem blobsOf_eq : ∀ (a s : List Out), outsOk a s → blobsOf a = blobsOf s
+  | [], [], _ => rfl
+  | [], _ :: _, h => by cases h
+  | _ :: _, [], h => by cases h
+  | x :: r, y :: r', h => by
+    have ih := blobsOf_eq r r' h.2
+    have h1 : outOk x y := h.1
+    cases x <;> cases y <;> simp [outOk] at h1 <;> simp [blobsOf, ih, h1]
+
+/-- the property's first sentence, for whole histories: two opens of the same package under
+different admissible limits, followed by the same history, read the same bytes at every read
+and end with the same content for every part -/
+theorem content_independent_of_limits (l1 l2 : Limits) (es : List Entry) (s1 s2 : St)
+    (h1 : openReader l1 es = .ok s1) (h2 : openReader l2 es = .ok s2)
+    (ops : List Op) (adm : AdmAll { m := Spec.parts es [] } ops) :
+    (∀ n, n ≠ sstKey → absAt (run s1 ops).1 n = absAt (run s2 ops).1 n) ∧
+    blobsOf (run s1 ops).2 = blobsOf (run s2 ops).2 := by
+  have a := store_refines_map l1 es s1 h1 ops adm
+  have b := store_refines_map l2 es s2 h2 ops adm
+  exact ⟨fun n hn => (a.2.1 n hn).trans (b.2.1 n hn).symm,
+    (blobsOf_eq _ _ a.2.2).trans (blobsOf_eq _ _ b.2.2).symm⟩
+
+/-- non-vacuity of the admissibility hypothesis: a history with a read, a first-touch write of a
+spilled sheet, a string write and a save (dirty table, so the law is not needed) is admissible -/
+theorem nonvacuous_history :
+    AdmAll ⟨Spec.parts
+      [⟨"xl/sharedStrings.xml", 50, false, .none, ⟨"s", 50⟩⟩,
+       ⟨"xl/worksheets/sheet1.xml", 100, false, .none, ⟨"a", 100⟩⟩] [], [], false, false⟩
+      [.wsRead "xl/worksheets/sheet1.xml", .sstRead, .sstItem ⟨"f", 9⟩, .stream "xl/worksheets/sheet1.xml", .sstSet,
+       .save [("xl/worksheets/sheet1.xml", ⟨"a2", 120⟩)] ⟨"s2", 60⟩ []] := by
+  have k : "xl/worksheets/sheet1.xml" ≠ sstKey := by decide
+  refine ⟨k, trivial, trivial, k, trivial, ⟨?_, ?_, by decide, ?_⟩, trivial⟩
+  · intro p hp; simp at hp; subst hp; decide
+  · intro p hp; cases hp
+  · intro hd; exact absurd hd (by decide)
 
 /-! ## non-vacuity -/
 
